@@ -262,6 +262,18 @@ def make_cells(tier):
             got = gens.rot_param_to_R(out, dst)
             compare_rot(got, want, dst == "euler", what + ": rotation matrix of the result vs the source rotation",
                         src=np.asarray(X).tolist(), out=out.tolist())
+            # the same conversion called directly on numeric (DM) parameters, as an interactive user does
+            Gd = cy.SO3_OF[dst]
+            with cy.quiet():
+                if src == "matrix":
+                    r_ = Gd.from_Matrix(ca.SX(ca.DM(np.asarray(X, float)))).param
+                else:
+                    r_ = getattr(Gd, "from_Mrp_alternative" if alt else FROM[src])(cy.SO3_OF[src].elem(ca.DM(np.asarray(X, float)))).param
+                outn = cy.vec(cy.arr(ca.evalf(ca.densify(ca.SX(r_)))))
+            check_valid(outn, dst, what + " on numeric parameters", src=np.asarray(X).tolist())
+            compare_rot(gens.rot_param_to_R(outn, dst), want, dst == "euler",
+                        what + " on numeric parameters: rotation matrix of the result vs the source rotation",
+                        src=np.asarray(X).tolist(), out=outn.tolist())
 
         cells.append(Cell("conv/%s->%s%s" % (src, dst, "_alt" if alt else ""), strat, check, nontrivial, classify,
                           quick=400, thorough=8000, build=lambda src=src, dst=dst, alt=alt: conv_fn(src, dst, alt).build()))
